@@ -143,6 +143,11 @@ pub enum UncatchableError {
 
     #[error("failed to serialize call arguments {0}")]
     CallArgumentsSerializationFailed(<CallArgumentsRepr as Representation>::SerializeError),
+
+    /// A value that is about to be recorded in data is nested deeper than the JSON parser
+    /// that reads the data back accepts.
+    #[error("value is nested deeper than {0} levels and can't be stored in data")]
+    ValueNestingTooDeep(usize),
 }
 
 impl ToErrorCode for UncatchableError {
